@@ -11,3 +11,10 @@ package consts
 //@ func (OutboundIndex).String
 //@   vpure
 //@   trusted
+
+//@ func (IpVersionStr).ToIpVersionType
+//@   vpure
+//@   trusted
+//@ func (IpVersionType).ToIpVersionStr
+//@   vpure
+//@   trusted
